@@ -144,11 +144,8 @@ Proof.
     change (is_word (TW obj_exp_kw_l) obj_imp_kw_vt) with false.
     change (is_word (TW obj_exp_kw_l) obj_imp_kw_f) with false.
     change (is_word (TW obj_exp_kw_l) obj_imp_kw_l) with true. cbn iota.
-    unfold obj_imp_edge_pos, obj_exp_edge, obj_imp_edge. cbn [map omap nthz].
-    change (nthz [TW obj_exp_kw_l; TI (a + 1); TI (b + 1)] 1) with (Some (TI (a + 1))).
-    change (nthz [TW obj_exp_kw_l; TI (a + 1); TI (b + 1)] 2) with (Some (TI (b + 1))).
-    cbn [py_int Model.py_int option_map].
-    replace (a + 1 - 1) with a by lia. replace (b + 1 - 1) with b by lia. reflexivity.
+    unfold obj_exp_edge. cbn [map skipn length Nat.ltb Nat.leb omap py_int Model.py_int option_map consecutive fst snd app].
+    unfold obj_imp_edge. replace (a + 1 - 1) with a by lia. replace (b + 1 - 1) with b by lia. reflexivity.
 Qed.
 
 Lemma obj_faces_block (Fs : list (list Z)) :
@@ -210,6 +207,7 @@ Proof.
   cbn [filter isnil negb].
   change (isnil (map TI (off_exp_counts (zlen (mV m)) (zlen (mF m)) (zlen (mE m))))) with false. cbn [negb].
   rewrite filter_nonempty_off_lines.
+  change (off_imp_counts_inline (zlen [TW off_header])) with false. cbn iota.
   change (is_word (TW off_header) off_header) with true. cbn iota.
   rewrite omap_int_TInt. unfold off_exp_counts, off_imp_ncounts, off_imp_counts_nv, off_imp_counts_nf.
   cbn [zlen length Z.of_nat Z.eqb Pos.eqb Pos.of_succ_nat Pos.succ nthz Z.ltb Z.compare Z.to_nat nth_error].
